@@ -41,8 +41,11 @@ def build_gprog(prog, returns: str = "all", noloc: bool = False):
     H.Tok.FALSY = set(prog.falsy)
     ids = prog.ids()
     H.FAIL.clear()
+    H.RET_NONE.clear()
     for i, n in enumerate(prog.nodes):
         if n.fail:
             H.FAIL[ids[i]] = n.fail
+        if n.retnone:
+            H.RET_NONE.add(ids[i])
     ns = exec_source(prog.source(returns))
     return ns[prog.name], ns
